@@ -250,9 +250,9 @@ func init() {
 		},
 		Units: func(tier string) []vh.Unit {
 			var us []vh.Unit
-			depth, n := 4, 2
+			depth, n := 5, 4
 			if tier == "thorough" {
-				depth, n = 6, 11
+				depth, n = 7, 11
 			}
 			for _, cfg := range c07Cfgs {
 				for s := 0; s < n; s++ {
